@@ -885,13 +885,17 @@ func x3Run(t *testing.T, ns *gnatsd.Server, b vBehaviour, tw *vTraceWriter) stri
 	x3RepMu.Lock()
 	x3Reports = nil
 	x3RepMu.Unlock()
-	base := newVKit(t, ns, newVFollowGate(), b.ID, 1, int(vIntDef(b.Cfg, "fetchMax", 1)), vKitIDs, 1)
+	// response packing: at most fetchMax plain records per response; every record whose number is a
+	// multiple of wideEvery is stored with twice the size
+	fm, we := int(vIntDef(b.Cfg, "fetchMax", 1)), int(vIntDef(b.Cfg, "wideEvery", 0))
+	base := newVKit(t, ns, newVFollowGate(), b.ID, 1, fm, vKitIDs, 1)
+	base.wideEvery = we
 	k := &x3Kit{vKit: base, g: g, pend: map[string][]vRaftOp{}, lastRel: map[string]string{},
 		tSend: map[string]time.Time{}, seenLo: map[string]time.Time{}, seenHi: map[string]time.Time{},
 		live: map[string]bool{}, orphan: map[string]int{}, deadIso: map[string]int64{}}
 	defer k.shutdown()
 	k.create()
-	k.emit(tw, b.ID, "Open", map[string]interface{}{}, "", "-", false)
+	k.emit(tw, b.ID, "Open", map[string]interface{}{"fm": fm, "we": we}, "", "-", false)
 	for _, step := range b.Steps {
 		if k.stuck != "" {
 			break
